@@ -12,12 +12,18 @@ use serde_json::json;
 use std::cell::RefCell;
 use std::time::Duration;
 
-pub const RULE: &str = "legal games from reference-model walks: root = startpos or a generated legal FEN (repository FENs, themes, random placements), 0-250 plies chosen with weights that make castling (both sides, both wings), en passant and all four promotion pieces occur; the text sent is 'position startpos|fen <reference FEN> moves <long algebraic>'. On the shipped binary (one process per worker serves thousands of cases): the 'FEN:' line of 'd fen' must equal the reference FEN of the final position; the move set printed by 'd perftdiv 1' must equal the reference legal moves in long algebraic form (lower-case promotion letter, castling as the king's two-square move); 'go depth 1' ('go movetime 20' when four or more queens are on the board) must answer with a member of that set; a search that stays silent for 60 s is not judged by this check. End of output or a panic line is a violation with the session as replay. In-process: parser::parse of the same line must yield the same (from, to, promotion) triples, and every legal reply of the final position must be printed identically to the reference long-algebraic text by UciMove::notation (bestmove, pv) and by Move's Debug form (perftdiv). Non-trivial = game containing castling, en passant or a promotion; distinct by command text.";
+pub const RULE: &str = "legal games from reference-model walks: root = startpos or a generated legal FEN (repository FENs, themes, random placements), 0-250 plies chosen with weights that make castling (both sides, both wings), en passant and all four promotion pieces occur; the text sent is 'position startpos|fen <reference FEN> moves <long algebraic>'. On the shipped binary (one process per worker serves thousands of cases): the 'FEN:' line of 'd fen' must equal the reference FEN of the final position; the move set printed by 'd perftdiv 1' must equal the reference legal moves in long algebraic form (lower-case promotion letter, castling as the king's two-square move); 'go depth 1' ('go movetime 20' when four or more queens are on the board) must answer with a member of that set; a search that stays silent for 60 s is not judged by this check. End of output or a panic line is a violation with the session as replay. In-process: parser::parse of the same line must yield the same (from, to, promotion) triples, and every legal reply of the final position must be printed identically to the reference long-algebraic text by UciMove::notation (bestmove, pv) and by Move's Debug form (perftdiv). One case in twelve is preceded, in the same process, by a position command whose start position is a different legal position with the same 64-bit key (constructed by elimination over the key words) and whose move list begins alike. Non-trivial = game containing castling, en passant or a promotion; distinct by command text.";
 
 #[derive(Serialize, Deserialize, Clone, Debug)]
 pub enum Case {
     Tape(Vec<u16>),
-    Explicit { root: Option<String>, moves: Vec<String> },
+    Explicit {
+        root: Option<String>,
+        moves: Vec<String>,
+        /// a command sent to the same process just before (its answer is not examined)
+        #[serde(default)]
+        prelude: Option<String>,
+    },
 }
 
 thread_local! {
@@ -31,10 +37,40 @@ struct Game17 {
     castles: u32,
     eps: u32,
     promos: [u32; 4],
+    prelude: Option<String>,
+}
+
+/// Two consecutive position commands whose start positions are different but have the same 64-bit key
+/// (constructed, see collide.rs) and whose move lists begin alike: the second command must still set
+/// up its own game.
+fn collision_case(t: &mut Tape) -> Option<Game17> {
+    let base = super::collide::kings_base(t);
+    let pair = super::collide::full_collision_pair(t, &base)?;
+    let (a, b) = if t.pick(2) == 0 { (pair.a, pair.b) } else { (pair.b, pair.a) };
+    let la: Vec<String> = a.legal_moves().iter().map(Mv::uci).collect();
+    let common: Vec<Mv> = b.legal_moves().into_iter().filter(|m| la.contains(&m.uci())).collect();
+    if common.is_empty() {
+        return None;
+    }
+    let m = common[t.pick(common.len())];
+    let mut g = Game17 { root: Some(b.to_fen()), moves: vec![m.uci()], finalpos: b.make(&m), castles: 0, eps: 0, promos: [0; 4], prelude: Some(format!("position fen {} moves {}", a.to_fen(), m.uci())) };
+    for _ in 0..t.pick(3) {
+        let legal = g.finalpos.legal_moves();
+        if legal.is_empty() {
+            break;
+        }
+        let m2 = legal[t.pick(legal.len())];
+        g.moves.push(m2.uci());
+        g.finalpos = g.finalpos.make(&m2);
+    }
+    Some(g)
 }
 
 fn from_tape(data: &[u16]) -> Option<Game17> {
     let mut t = Tape::new(data);
+    if t.pick(12) == 0 {
+        return collision_case(&mut t);
+    }
     let (root, start): (Option<String>, Pos) = if t.pick(3) == 0 {
         (None, Pos::start())
     } else {
@@ -47,7 +83,7 @@ fn from_tape(data: &[u16]) -> Option<Game17> {
         2 => t.pick(120),
         _ => t.pick(251),
     };
-    let mut g = Game17 { root, moves: vec![], finalpos: start, castles: 0, eps: 0, promos: [0; 4] };
+    let mut g = Game17 { root, moves: vec![], finalpos: start, castles: 0, eps: 0, promos: [0; 4], prelude: None };
     for _ in 0..plies {
         let legal = g.finalpos.legal_moves();
         if legal.is_empty() {
@@ -83,7 +119,7 @@ fn from_explicit(root: &Option<String>, moves: &[String]) -> Option<Game17> {
             p
         }
     };
-    let mut g = Game17 { root: root.clone(), moves: vec![], finalpos: start, castles: 0, eps: 0, promos: [0; 4] };
+    let mut g = Game17 { root: root.clone(), moves: vec![], finalpos: start, castles: 0, eps: 0, promos: [0; 4], prelude: None };
     for t in moves {
         let m = g.finalpos.legal_moves().into_iter().find(|m| &m.uci() == t)?;
         record(&mut g, &m);
@@ -111,7 +147,7 @@ fn command(g: &Game17) -> String {
 fn check(g: &Game17, st: &mut Stats) -> Result<(), Fail> {
     st.eval();
     let cmd = command(g);
-    let ex = || json!({"Explicit": {"root": g.root, "moves": g.moves}});
+    let ex = || json!({"Explicit": {"root": g.root, "moves": g.moves, "prelude": g.prelude}});
     st.class_n("castling_moves", g.castles as u64);
     st.class_n("en_passant_captures", g.eps as u64);
     for (i, n) in ["promotion_n", "promotion_b", "promotion_r", "promotion_q"].iter().enumerate() {
@@ -181,6 +217,10 @@ fn check(g: &Game17, st: &mut Stats) -> Result<(), Fail> {
         };
         let r = (|| -> Result<(), Fail> {
             e.transcript.clear();
+            if let Some(pre) = &g.prelude {
+                st.class("preceded_by_a_position_command_whose_start_position_has_the_same_key");
+                e.send(pre).map_err(|x| died(e, &x))?;
+            }
             e.send(&cmd).map_err(|x| died(e, &x))?;
             e.send("d fen").map_err(|x| died(e, &x))?;
             // board picture, then "FEN: ..." then empty line
@@ -282,7 +322,10 @@ pub fn run(run: &mut Run) -> &'static str {
     run.proptest_part("games", RULE, strat, cases, |c: &Case, st: &mut Stats| {
         let g = match c {
             Case::Tape(t) => from_tape(t),
-            Case::Explicit { root, moves } => from_explicit(root, moves),
+            Case::Explicit { root, moves, prelude } => from_explicit(root, moves).map(|mut g| {
+                g.prelude = prelude.clone();
+                g
+            }),
         };
         match g {
             Some(g) => check(&g, st),
